@@ -165,6 +165,7 @@ func (w *CredWorld) scheduleNext() {
 	}
 	w.K.At(at, fmt.Sprintf("op:%d:%s", op.ID, op.Kind), func() {
 		w.K.Stats.Op(op.Kind)
+		w.K.OpIssued(op.ID)
 		done := make(chan struct{})
 		go func() { w.exec(op); close(done) }()
 		<-done
